@@ -55,9 +55,17 @@ def ackEv : Option Nat → List Ev
   | some a => [.ack a]
   | none => []
 
-/-- the events of `handle_cmd(Stop { graceful, completion })`, in program order (server.rs:242-281) -/
+/-- the events of `handle_cmd(Stop { graceful, completion })`, in program order (server.rs:242-281).
+
+**Order demanded by C06** (finding F7): `Stop` is sent to every worker *before* the accept thread is told
+to stop.  When the accept thread exits it drops its worker handles, which closes the workers'
+connection channels; a worker that observes the closed channel before its `Stop` finishes at once
+(worker.rs `None => return Poll::Ready(())`) and the connections it is serving die — also on a
+graceful stop, whose `join_all` then sees only dropped reply senders and completes immediately.  The
+original tree wakes the accept thread first; `fixes/C06-stop-workers-before-accept.patch` swaps the two
+statements.  `Props/C06.source_shape` checks the order against the source on every run. -/
 def stopEvs (workers : List Nat) (graceful : Bool) (completion : Option Nat) : List Ev :=
-  [.wake .stop] ++ workers.map (.stopWorker · graceful) ++ (if graceful then workers.map .awaitWorker else []) ++
+  workers.map (.stopWorker · graceful) ++ [.wake .stop] ++ (if graceful then workers.map .awaitWorker else []) ++
     [.joinAccept] ++ ackEv completion
 
 /-- `handle_cmd` -/
